@@ -178,7 +178,8 @@ def run_world(w: World, only=None):
         if getattr(s.rt, "cross_hook", None) is None:
             install_hook(mi)
         if w.clones and s.rt.owner_ids is None and getattr(s.rt, "sm", None) is not None and i > 0:
-            s.rt.owner_ids = {id(s.rt.sm), id(s.rt.model)} | {id(x) for x in s.listeners.values()}
+            s.rt.owner_ids = {id(s.rt.sm), id(s.rt.model)} | {id(x) for x in s.listeners.values()} | {
+                id(x.__dict__["_inner"]) for x in s.listeners.values() if "_inner" in getattr(x, "__dict__", {})}
         s.foreign_from = None
         if nested and active:
             host = sessions[active[-1]]
@@ -256,7 +257,8 @@ def run_world(w: World, only=None):
             clone.bind_events_to(rt.bound)
             ls = getattr(clone, "_listeners", None)
             if isinstance(ls, (dict, list)):
-                rt.owner_ids = {id(clone), id(clone.model)} | {id(x) for x in ls}
+                rt.owner_ids = {id(clone), id(clone.model)} | {id(x) for x in ls} | {
+                    id(x.__dict__["_inner"]) for x in ls if "_inner" in getattr(x, "__dict__", {})}
             shared = []
             if clone is sm:
                 shared.append("machine")
